@@ -152,16 +152,30 @@ def r04c(ctx):
     if ctx.check(len(ups) == 1, 'R04c', NEXT, 'skip site', '-', 'one minimum-size skip (cur_chunk_len += ..) under a cur_chunk_len < threshold guard (threshold field: %s)' % sorted(set(thresholds))):
         b, si, e = ups[0]
         is_thr = lambda z: z[0] == 'field' and z[2] in thresholds
-        ok = e[0] == 'call' and sg(e[1]).endswith('min') and len(e[2]) == 2
+        from .core import as_min
+        mn = as_min(a, e)
+        ok = mn is not None
+        # the input cursor: the end of the slice appended to the chunk buffer
+        cur_l = None
+        for c_ in a.calls('alloc::vec::Vec::extend_from_slice'):
+            sl_ = a.arg(c_, 1)
+            if sl_[0] == 'index' and sl_[2][0] == 'agg' and dict(sl_[2][3]).get('end', ('x',))[0] == 'local':
+                cur_l = dict(sl_[2][3])['end'][1]
+        # nothing was consumed yet when the skip runs (then "the input still unconsumed" is all of it)
+        nothing_consumed = cur_l is not None and all(
+            (d_[0] == 'assign' and a.flow.rvalue(d_[3], 0)[:2] == ('const', 0)) or b not in a.cfg.reach_after([d_[1]]) for d_ in a.flow.defs.get(cur_l, []) if not (d_[0] == 'assign' and d_[1] == b))
         if ok:
-            x, y = e[2]
+            x, y = mn
             rel = [z for z in (x, y) if _subtracts(z, is_cur, is_thr)]
-            rem = [z for z in (x, y) if flow.mentions(z, is_data_len) and flow.mentions(z, lambda q: q[0] == 'local')]
-            ok = len(rel) == 1 and len(rem) == 1 and rel[0] is not rem[0]
+            rem = [z for z in (x, y) if flow.mentions(z, is_data_len) and (flow.mentions(z, lambda q: q[0] == 'local') or nothing_consumed)]
+            ok = len(rel) == 1 and len(rem) >= 1 and any(r_ is not rel[0] for r_ in rem)
         ctx.check(ok, 'R04c', NEXT, 'skip bound', a.loc(b, si), 'the skip is min(threshold - cur_chunk_len - .., input still unconsumed)',
                   'the minimum-size skip does not subtract the bytes already in the open chunk (or is not limited by the unconsumed input): boundaries then depend on how the stream is split across calls')
         # the same amount advances the input cursor
         cu = [u2 for bb in sorted(a.cfg.reach0) for s2 in a.blocks[bb]['s'] for u2 in [paths.additive_update(a, s2)] if u2 and len(u2[0]) == 1 and u2[0] not in cur_keys and flow.eqv(u2[2], e)]
+        if not cu and nothing_consumed and cur_l is not None:
+            # `cursor = skip` is `cursor += skip` while nothing was consumed
+            cu = [1 for d_ in a.flow.defs.get(cur_l, []) if d_[0] == 'assign' and d_[1] == b and flow.eqv(a.flow.rvalue(d_[3], 0), e)]
         ctx.check(len(cu) == 1, 'R04c', NEXT, 'skip cursor', a.loc(b, si), 'the input cursor advances by the same amount as cur_chunk_len')
     # (ii) search window
     nm = a.calls('gearhash::Hasher::next_match')
@@ -169,10 +183,31 @@ def r04c(ctx):
         w = a.arg(nm[0], 1)
         rg = dict(w[2][3]) if w[0] == 'index' and w[2][0] == 'agg' else {}
         st, en = rg.get('start'), rg.get('end')
-        ok = w[0] == 'index' and (w[1][0] == 'param' and w[1][1] == 2) and st is not None and st[0] == 'local' and en is not None and flow.mentions(en, is_data_len) and _subtracts(en, is_cur, is_max)
+        from .core import as_min
+        en_parts = None
+        if en is not None:
+            mn2 = as_min(a, en)
+            en_parts = list(mn2) if mn2 is not None else [en]
+        ok = (w[0] == 'index' and (w[1][0] == 'param' and w[1][1] == 2) and st is not None and st[0] == 'local' and en is not None
+              and any(flow.mentions(z, is_data_len) for z in en_parts) and any(_subtracts(z, is_cur, is_max) for z in en_parts))
         ctx.check(ok, 'R04c', NEXT, 'window', a.loc(nm[0]), 'the search window is data[consumed .. min(len, consumed + maximum_chunk - cur_chunk_len)]',
                   'the boundary search window is not limited relative to the open chunk (maximum_chunk - cur_chunk_len)')
         ctx.check(a.arg(nm[0], 2)[0] == 'field' and a.arg(nm[0], 2)[2] == 'mask' and flow.show(a.arg(nm[0], 0)) == 'self.hash', 'R04c', NEXT, 'mask', a.loc(nm[0]), 'the search uses the persistent rolling hash and the configured mask')
     # (iii) forced cut compares open chunk + advance with maximum_chunk
     fc = edges_where(a, lambda op, l, r: op == 'Ge' and flow.mentions(l, is_cur) and flow.mentions(r, is_max))
+    if not fc:
+        # clamp form: `advance = min(advance, maximum_chunk - cur_chunk_len); cur_chunk_len += advance; if cur_chunk_len == maximum_chunk`
+        from .core import as_min
+        clamped = False
+        for bb in sorted(a.cfg.reach0):
+            for s2 in a.blocks[bb]['s']:
+                u2 = paths.additive_update(a, s2)
+                if u2 and u2[0] in cur_keys:
+                    srcs_ = [se for (_, _, se) in a.flow.sources(u2[2])] or [u2[2]]
+                    for se in srcs_ + [u2[2]]:
+                        mn3 = as_min(a, se)
+                        if mn3 and any(_subtracts(z, is_cur, is_max) for z in mn3):
+                            clamped = True
+        if clamped:
+            fc = edges_where(a, lambda op, l, r: op == 'Eq' and is_cur(l) and flow.mentions(r, is_max))
     ctx.check(bool(fc), 'R04c', NEXT, 'forced cut', '-', 'a forced cut is decided on (advance + cur_chunk_len) >= maximum_chunk')
